@@ -1,4 +1,5 @@
-"""C12 — cross-validated evaluation and stacking never leak held-out data (lean/ForML/Model/CrossVal.lean).
+"""C12 — cross-validated evaluation and stacking never leak held-out data (lean/ForML/Model/CrossVal.lean,
+lean/ForML/Model/CrossValActor.lean).
 
 Implementation: the *real* `flow.Composition(source, expr)` where `expr` is built from the real operator library
 (`wrap.Operator`, `payload.MapReduce`, `ensemble.FullStack`, `evaluation.TrainTestScore` over
@@ -8,6 +9,13 @@ Implementation: the *real* `flow.Composition(source, expr)` where `expr` is buil
   carrying rows `(record, {records any model on the way was trained on})`,
 * a symbolic fold splitter: a subclass of the real `payload.CVFoldable` (its `train`/`apply` are the anchored
   code) over a cross-validator double that decides *any* index lists (k-fold partitions and arbitrary tables).
+
+* cross-validator doubles whose `split` is not reproducible between calls (counter-based), the splitter's state
+  travelling from the trained worker to its forks the way the compiled code does it (`SetState`: `set_state` then the
+  hyper-parameters re-applied; dict or pickled through the inherited `Actor.get_state/set_state`).
+
+Whatever the code under test does - raising, handing `None` or foreign objects to an actor, producing an output of
+another shape - is recorded as behaviour and judged by the oracle; it never crashes the check.
 
 Both segments are compiled by `flow.compile` and executed by the memoising reference interpreter of
 props/pipegen.py.  Compared with the Lean model (`denote` terms, `rows` interpretation of the scored / stacked
@@ -33,13 +41,19 @@ _CACHE: dict = {}
 # provenance payloads and symbolic actors (created once forml is importable)
 # --------------------------------------------------------------------------------------------------
 class P:
-    """A payload = node of the provenance DAG + its provenance value (rows)."""
+    """A payload = node of the provenance DAG + its provenance value (rows).
 
-    __slots__ = ('kind', 'tag', 'state', 'args', 'k', 'rows', '_size')
+    Whatever the code under test hands to a symbolic actor becomes a node: `None` -> the `none` term, anything that
+    is not a payload -> a `foreign` node (which the model rejects): a behaviour to be judged, never a harness crash."""
 
-    def __init__(self, kind, tag, state, args, k, rows):
-        self.kind, self.tag, self.state, self.args, self.k = kind, tag, state, tuple(args), k
+    __slots__ = ('kind', 'tag', 'state', 'args', 'k', 'rows', 'pos', '_size')
+
+    def __init__(self, kind, tag, state, args, k, rows, pos=None):
+        self.kind, self.tag, self.k = kind, tag, k
+        self.state = None if state is None else coerce(state)
+        self.args = tuple(coerce(a) for a in args)
         self.rows = tuple(rows)  # ((col, rid), frozenset of (col, rid))
+        self.pos = None if pos is None else tuple(pos)  # part: the row positions the splitter selected
         self._size = None
 
     def __len__(self):  # the flow engine logs len(state)
@@ -48,7 +62,7 @@ class P:
     def size(self) -> int:
         """Size of the term as a tree."""
         if self._size is None:
-            self._size = 1 + (self.state.size() if self.state is not None else 1 if self.kind != 'input' else 0) \
+            self._size = 1 + (self.state.size() if self.state is not None else 1 if self.kind not in ('input', 'none', 'foreign') else 0) \
                 + sum(a.size() for a in self.args)
         return self._size
 
@@ -56,16 +70,41 @@ class P:
         """Nested-list form (the protocol's `val`)."""
         if self.kind == 'input':
             return ['input', self.tag]
+        if self.kind == 'none':
+            return NONE
+        if self.kind == 'foreign':
+            return ['foreign', str(self.tag)]
         st = NONE if self.state is None else self.state.term()
         if self.kind == 'apply':
             return ['apply', self.tag, st, [a.term() for a in self.args]]
         if self.kind == 'state':
-            return ['state', self.tag, st, self.args[0].term(), self.args[1].term()]
+            args = list(self.args) + [NIL] * (2 - len(self.args))
+            return ['state', self.tag, st, args[0].term(), args[1].term()]
         if self.kind == 'part':
-            return ['part', self.tag, st, self.k, self.args[0].term()]
+            return ['part', self.tag, st, self.k, self.args[0].term() if self.args else NONE]
         if self.kind == 'concat':
             return ['concat', self.tag, [a.term() for a in self.args]]
         raise ValueError(self.kind)
+
+
+class Observed(Exception):
+    """A behaviour of the code under test, noticed while driving it, that ends the run of a case: judged, not a crash."""
+
+    def __init__(self, signature: str, what: str):
+        super().__init__(what)
+        self.signature, self.what = signature, what
+
+
+def coerce(x) -> 'P':
+    """Any object reaching a symbolic actor as a payload node."""
+    if isinstance(x, P):
+        return x
+    if x is None:
+        return NIL
+    return P('foreign', type(x).__name__, None, (), None, ())
+
+
+NIL = P('none', 0, None, (), None, ())
 
 
 def atoms(rows) -> frozenset:
@@ -78,9 +117,9 @@ def atoms(rows) -> frozenset:
 
 def seen(state) -> frozenset:
     """Records a state was trained on (transitively)."""
-    if state is None:
+    if state is None or state.kind != 'state':
         return frozenset()
-    return seen(state.state) | atoms(state.args[0].rows) | atoms(state.args[1].rows)
+    return seen(state.state).union(*(atoms(a.rows) for a in state.args))
 
 
 def hzip(sn, datas):
@@ -94,15 +133,16 @@ def hzip(sn, datas):
     return tuple((k, d | sn) for k, d in first)
 
 
-def decide(decision, c: int, ln: int) -> list:
-    """The cross-validator doubles: (train positions, test positions) per fold for `ln` rows."""
+def decide(decision, c: int, ln: int, call: int = 0) -> list:
+    """The cross-validator doubles: (train positions, test positions) per fold for `ln` rows, as decided in the
+    `call`-th invocation of `split` (a double whose split is reproducible always answers as in call 0)."""
     if decision[0] == 'kfold':
-        r = decision[1]
+        r = decision[1] + call
         return [([p for p in range(ln) if (p + r) % c != i], [p for p in range(ln) if (p + r) % c == i]) for i in range(c)]
     if decision[0] == 'table':
         if ln == 0:
             return [([], []) for _ in decision[1]]
-        return [([s % ln for s in a], [s % ln for s in b]) for a, b in decision[1]]
+        return [([(s + call) % ln for s in a], [(s + call) % ln for s in b]) for a, b in decision[1]]
     raise ValueError(decision)
 
 
@@ -111,23 +151,43 @@ class FoldIdx(tuple):
 
     origin = None
     tag = None
+    call = None
 
 
 class CV:
-    """Cross-validator double (`payload.CrossValidable`): decides from the number of rows."""
+    """Cross-validator double (`payload.CrossValidable`): decides from the number of rows and - when `volatile` -
+    from the number of times it has been asked before: no two calls of `split` yield the same partition (what
+    `KFold(shuffle=True)` / `ShuffleSplit` with `random_state=None` do).  Every call is logged."""
 
-    def __init__(self, tag: int, c: int, decision):
-        self.tag, self.c, self.decision = tag, c, decision
+    def __init__(self, tag: int, c: int, decision, volatile: bool = False, plain: bool = False):
+        self.tag, self.c, self.decision, self.volatile, self.plain = tag, c, decision, bool(volatile), plain
+        self.calls = 0
+        self.log: list = []  # per call: the decided [(train positions, test positions)]
 
     def get_n_splits(self, *_args):
         return self.c
 
     def split(self, features, labels=None, groups=None):
+        call = self.calls
+        self.calls += 1
+        if isinstance(features, P):
+            ln = len(features.rows)
+        else:
+            try:
+                ln = len(features)
+            except TypeError:
+                ln = 0
+        decided = decide(self.decision, self.c, ln, call if self.volatile else 0)
+        self.log.append(decided)
+        if self.plain:  # pandas payloads: positional indexers must be lists
+            return [(list(tr), list(te)) for tr, te in decided]
         state = P('state', self.tag, None, (features, labels), None, ())
-        for tr, te in decide(self.decision, self.c, len(features.rows)):
+        out = []
+        for tr, te in decided:
             f = FoldIdx((tuple(tr), tuple(te)))
-            f.origin, f.tag = state, self.tag
-            yield f
+            f.origin, f.tag, f.call = state, self.tag, call
+            out.append(f)
+        return out
 
 
 def lib():
@@ -145,6 +205,7 @@ def lib():
             self.state = None
 
         def apply(self, *args):
+            args = [coerce(a) for a in args]
             return P('apply', self.tag, self.state, args, None, hzip(seen(self.state), [a.rows for a in args]))
 
         def get_params(self):
@@ -167,19 +228,27 @@ def lib():
         """Vertical concatenation."""
 
         def apply(self, *args):
+            args = [coerce(a) for a in args]
             return P('concat', self.tag, None, args, None, [r for a in args for r in a.rows])
 
-    class Split(payload.CVFoldable):
-        """The real CVFoldable (train/apply) over provenance payloads."""
+    class SplitReal(payload.CVFoldable):
+        """The real CVFoldable over provenance payloads: `train`, `apply`, `get_params`, `set_params` and the
+        inherited `Actor.get_state` / `Actor.set_state` (pickled `__dict__`, hyper-parameters re-applied) are all
+        the anchored code; only the payload-specific `split` is the harness's."""
 
         @classmethod
         def split(cls, features, indices):
+            features = coerce(features)
             out = []
             for j, fold in enumerate(indices):
                 a, b = fold
-                out.append(P('part', fold.tag, fold.origin, (features,), 2 * j, [features.rows[p] for p in a]))
-                out.append(P('part', fold.tag, fold.origin, (features,), 2 * j + 1, [features.rows[p] for p in b]))
+                origin, tag = getattr(fold, 'origin', None), getattr(fold, 'tag', 0)
+                out.append(P('part', tag, origin, (features,), 2 * j, [features.rows[p] for p in a], pos=a))
+                out.append(P('part', tag, origin, (features,), 2 * j + 1, [features.rows[p] for p in b], pos=b))
             return tuple(out)
+
+    class Split(SplitReal):
+        """...with the state handed over as a plain attribute dictionary (no pickling)."""
 
         def get_state(self):
             return dict(self.__dict__)
@@ -195,15 +264,15 @@ def lib():
             return P('input', self.col, None, (), None, [((self.col, r), frozenset()) for r in range(self.size)])
 
     class Labels(flow.Actor):
-        def __init__(self, size: int):
-            self.size = size
+        def __init__(self, size: int, cols=(1, 2)):
+            self.size, self.cols = size, tuple(cols)
 
         def apply(self, raw):
-            return (P('input', 1, None, (), None, [((1, r), frozenset()) for r in range(self.size)]),
-                    P('input', 2, None, (), None, [((2, r), frozenset()) for r in range(self.size)]))
+            return tuple(P('input', c, None, (), None, [((c, r), frozenset()) for r in range(self.size)]) for c in self.cols)
 
     assert Stateful.is_stateful() and not Sym.is_stateful() and not Stack.is_stateful() and Split.is_stateful()
-    _CACHE['lib'] = dict(Sym=Sym, Stateful=Stateful, Stack=Stack, Split=Split, Source=Source, Labels=Labels)
+    assert SplitReal.is_stateful() and SplitReal.get_state is flow.Actor.get_state and SplitReal.set_state is flow.Actor.set_state
+    _CACHE['lib'] = dict(Sym=Sym, Stateful=Stateful, Stack=Stack, Split=Split, SplitReal=SplitReal, Source=Source, Labels=Labels)
     return _CACHE['lib']
 
 
@@ -211,19 +280,22 @@ def _fn(tag: int, vertical: bool = False):
     """Plain function flavour of a merger / metric (wrapped by forml into payload.Apply)."""
     if vertical:
         def stack(*args):
+            args = [coerce(a) for a in args]
             return P('concat', tag, None, args, None, [r for a in args for r in a.rows])
         return stack
 
     def merge(*args):
+        args = [coerce(a) for a in args]
         return P('apply', tag, None, args, None, hzip(frozenset(), [a.rows for a in args]))
     return merge
 
 
-def source(n: int, m: int):
+def source(n: int, m: int, cols=(1, 2)):
+    """Source of `m` apply-mode records (column 0) and `n` train-mode records: features / labels = columns `cols`."""
     from forml.io._input import extract
 
     L = lib()
-    return extract.Operator(L['Source'].builder(0, m), L['Source'].builder(-1, n), L['Labels'].builder(n))
+    return extract.Operator(L['Source'].builder(0, m), L['Source'].builder(-1, n), L['Labels'].builder(n, cols))
 
 
 # --------------------------------------------------------------------------------------------------
@@ -251,12 +323,14 @@ def _wrap_operator(lab, app, trn):
 
 
 def build(ast, dec: dict, flavour: int):
-    """Fresh real composable. `dec[tag] = (c, decision)` configures the splitter doubles; `flavour` picks the
-    constructor variants (cross-validator + splitter class vs builder + nsplits; mergers as functions vs builders)."""
+    """Fresh real composable. `dec[tag] = (c, decision, volatile)` configures the splitter doubles; `flavour` picks the
+    constructor variants (bit 0: cross-validator + splitter class vs builder + nsplits; bit 1: mergers as functions vs
+    builders; bit 2: the splitter's state travels pickled through the inherited Actor.get_state/set_state vs as a dict)."""
     from forml import evaluation
     from forml.pipeline import ensemble, payload
 
     L = lib()
+    Split = L['SplitReal'] if flavour & 4 else L['Split']
     kind = ast[0]
     if kind == 'wrap':
         return _wrap_operator(ast[1], ast[2], ast[3])()
@@ -267,25 +341,25 @@ def build(ast, dec: dict, flavour: int):
         return build(ast[1], dec, flavour) >> build(ast[2], dec, flavour)
     if kind == 'stack':
         _, bases, nsplits, sp, appender, stacker, reducer = ast
-        c, decision = dec[sp]
+        c, decision, volatile = dec[sp]
         assert c == nsplits
-        cv = CV(sp, c, decision)
-        split = dict(crossvalidator=cv, splitter=L['Split']) if flavour & 1 else \
-            dict(splitter=L['Split'].builder(crossvalidator=cv), nsplits=nsplits)
+        cv = CV(sp, c, decision, volatile)
+        split = dict(crossvalidator=cv, splitter=Split) if flavour & 1 else \
+            dict(splitter=Split.builder(crossvalidator=cv), nsplits=nsplits)
         mergers = dict(appender=_fn(appender), stacker=_fn(stacker, True), reducer=_fn(reducer)) if flavour & 2 else \
             dict(appender=L['Sym'].builder(tag=appender), stacker=L['Stack'].builder(tag=stacker), reducer=L['Sym'].builder(tag=reducer))
         return ensemble.FullStack(*(build(b, dec, flavour) for b in bases), **split, **mergers)
     if kind == 'score':
         _, nsplits, sp, metric, reducer = ast
-        c, decision = dec[sp]
-        cv = CV(sp, c, decision)
+        c, decision, volatile = dec[sp]
+        cv = CV(sp, c, decision, volatile)
         if nsplits == 1:
-            method = evaluation.HoldOut(crossvalidator=cv, splitter=L['Split']) if flavour & 1 else \
-                evaluation.HoldOut(splitter=L['Split'].builder(crossvalidator=cv))
+            method = evaluation.HoldOut(crossvalidator=cv, splitter=Split) if flavour & 1 else \
+                evaluation.HoldOut(splitter=Split.builder(crossvalidator=cv))
         else:
             assert c == nsplits
-            method = evaluation.CrossVal(crossvalidator=cv, splitter=L['Split']) if flavour & 1 else \
-                evaluation.CrossVal(splitter=L['Split'].builder(crossvalidator=cv), nsplits=nsplits)
+            method = evaluation.CrossVal(crossvalidator=cv, splitter=Split) if flavour & 1 else \
+                evaluation.CrossVal(splitter=Split.builder(crossvalidator=cv), nsplits=nsplits)
         return evaluation.TrainTestScore(evaluation.Function(_fn(metric), _fn(reducer)), method)
     raise ValueError(f'unknown expression kind {kind!r}')
 
@@ -297,7 +371,7 @@ def run(case: dict, apply_mode: bool):
     """-> (train output P, apply output P | None, [(tag, state)] of the trained workers)."""
     from forml import flow
 
-    comp = flow.Composition(source(case['N'], case['M']), build(case['expr'], {t: (c, d) for t, c, d in case['dec']}, case.get('flavour', 0)))
+    comp = flow.Composition(source(case['N'], case['M']), build(case['expr'], dec_table(case), case.get('flavour', 0)))
     train_nodes = pg.segment_workers(comp.train)
     ctrain = pg.compile_segment(comp.train, None)
     tvals = pg.interpret(ctrain.symbols)
@@ -313,11 +387,62 @@ def run(case: dict, apply_mode: bool):
         persistent = list(comp.persistent)
         missing = [g for g in persistent if g not in by_gid]
         if missing:
-            raise RuntimeError(f'{len(missing)} persistent actors were not trained by the train run')
+            raise Observed('stack-apply-fold-models', f'apply mode needs the state of {len(missing)} actor(s) the train mode never trains')
         capply = pg.compile_segment(comp.apply, pg.Assets({g: by_gid[g] for g in persistent}, persistent))
         avals = pg.interpret(capply.symbols)
         apply_out = pg.tail_value(comp.apply, capply, avals)
     return train_out, apply_out, states
+
+
+def run_perf(case: dict):
+    """`pipeline >> PerfTrackScore(metric)` on tracked data (columns 3 / 4) with the states of the generation the same
+    pipeline was trained to on columns 1 / 2 -> the train-mode output (the metric value's provenance)."""
+    from forml import evaluation, flow
+
+    comp1 = flow.Composition(source(case['N'], case['M']), build(case['expr'], {}, 0))
+    nodes1 = pg.segment_workers(comp1.train)
+    c1 = pg.compile_segment(comp1.train, None)
+    v1 = pg.interpret(c1.symbols)
+    by_tag = {node_tag(n): v1[c1.index[n.uid]] for n in nodes1 if n.trained}
+    stage = evaluation.PerfTrackScore(evaluation.Function(_fn(case['metric']), _fn(case['reducer'])))
+    comp2 = flow.Composition(source(case['N2'], case['M'], cols=(3, 4)), build(case['expr'], {}, 0) >> stage)
+    persistent = list(comp2.persistent)
+    # the states of the earlier generation by actor (in these pipelines every builder makes exactly one worker group)
+    tag_of = {n.gid: node_tag(n) for n in pg.segment_workers(comp2.apply) + pg.segment_workers(comp2.train)}
+    missing = [g for g in persistent if tag_of.get(g) not in by_tag]
+    if missing:
+        raise Observed('perf-states', f'performance tracking needs the state of {len(missing)} actor(s) the pipeline never trains')
+    assets = pg.Assets({g: by_tag[tag_of[g]] for g in persistent}, persistent)
+    c2 = pg.compile_segment(comp2.train, assets)
+    v2 = pg.interpret(c2.symbols)
+    return pg.tail_value(comp2.train, c2, v2)
+
+
+def oracle_perf(case, out, violations) -> list:
+    """Performance tracking: exactly one (true, prediction) pair is scored - the tracked labels against the predictions for
+    the tracked features of the same records -, by models that have seen nothing of the tracked data."""
+    n2 = case['N2']
+    if not (out.kind == 'apply' and out.tag == case['metric'] and len(out.args) == 2):
+        violations.append(('the performance-tracking value is not the metric of one (true, prediction) pair', 'perf-fold-count', {}))
+        return []
+    true, pred = out.args
+    if list(true.rows) != [((4, r), frozenset()) for r in range(n2)]:
+        violations.append(('the true outcomes scored by performance tracking are not the labels of the tracked data', 'perf-true-outcomes', {}))
+    elif [r[0] for r in pred.rows] != [(3, r) for r in range(n2)]:
+        violations.append(('the predictions scored by performance tracking do not describe the tracked records', 'perf-pred-records', {}))
+    else:
+        for key, deps in pred.rows:
+            leak = sorted(a for a in deps if a[0] not in (1, 2))
+            if leak:
+                violations.append((f'the tracked prediction for record {key[1]} comes from a model that has seen tracked data: {leak[:4]}',
+                                   'perf-leak', {}))
+                break
+    return [out]
+
+
+def dec_table(case) -> dict:
+    """{splitter tag: (n_splits, decision, volatile)}; witnesses recorded before the doubles could be volatile have triples."""
+    return {d[0]: (d[1], d[2], bool(d[3]) if len(d) > 3 else False) for d in case['dec']}
 
 
 def node_tag(node) -> int:
@@ -354,7 +479,9 @@ def splitter_tags(ast) -> list:
 
 def impl(case: dict) -> dict:
     """Worker-side: run the real code, evaluate the oracle on its provenance, return plain data.  An exception
-    that passed through forml code is the implementation's behaviour; anything else is a harness defect."""
+    that passed through forml code is the implementation's behaviour (recorded by the batch runner and judged as
+    such); so is an output of a shape the oracle cannot read (`unreadable`).  Only a failure while *building* the
+    case - before any code under test produced anything - is a harness defect."""
     import traceback
 
     try:
@@ -366,26 +493,74 @@ def impl(case: dict) -> dict:
         return {'harness_error': f'{type(err).__name__}: {err}', 'trace': ''.join(traceback.format_tb(err.__traceback__))[-1500:]}
 
 
+def _decode(st):
+    """A trained worker's state as the harness reads it: pickled states (inherited Actor.get_state) are unpickled."""
+    if isinstance(st, (bytes, bytearray)):
+        import cloudpickle
+
+        try:
+            return cloudpickle.loads(st)
+        except Exception:  # pylint: disable=broad-except
+            return st
+    return st
+
+
 def _impl(case: dict) -> dict:
+    import traceback
+
     kind = case['kind']
     out: dict = {'queries': [], 'answers': [], 'violations': []}
-    train_out, apply_out, states = run(case, apply_mode=kind == 'stack')
+    try:
+        if kind == 'perf':
+            train_out, apply_out, states = run_perf(case), None, []
+        else:
+            train_out, apply_out, states = run(case, apply_mode=kind == 'stack')
+    except Observed as seen_:
+        out['violations'] = [(seen_.what, seen_.signature, {})]
+        out['unreadable'] = True
+        return out
+    states = [(tag, _decode(st)) for tag, st in states]
+    # from here on only outputs of the code under test are inspected: whatever they look like is its behaviour
+    try:
+        train_out = coerce(train_out)
+        apply_out = coerce(apply_out) if kind == 'stack' else None
+        return _judge(case, out, train_out, apply_out, states)
+    except Exception as err:  # pylint: disable=broad-except
+        where = ''.join(traceback.format_tb(err.__traceback__))[-600:]
+        out['violations'] = [(f'the composition produced an output the property cannot be read off from ({type(err).__name__}: '
+                              f'{str(err)[:120]})', 'unreadable-output', {'trace': where})]
+        out['unreadable'] = True
+        return out
+
+
+def _judge(case: dict, out: dict, train_out, apply_out, states) -> dict:
+    kind = case['kind']
     size = train_out.size() + (apply_out.size() if apply_out is not None else 0)
     out['size'] = size
     if size > SIZE_LIMIT:
         out['oversize'] = True
         return out
-    out['train'] = sexp.dumps(train_out.term())
-    out['apply'] = sexp.dumps(apply_out.term()) if apply_out is not None else None
+    reducers = reducer_tags(case['expr'])
+    tterm = train_out.term()
+    aterm = apply_out.term() if apply_out is not None else None
+    out['train'] = sexp.dumps(tterm)
+    out['apply'] = sexp.dumps(aterm) if aterm is not None else None
+    if reducers:  # the same up to the order of the reducers' arguments (see C12._evaluate)
+        out['train_c'] = sexp.dumps(sort_reduced(tterm, reducers))
+        out['apply_c'] = sexp.dumps(sort_reduced(aterm, reducers)) if aterm is not None else None
+    oracle_sync(case, [train_out, apply_out] + [st for _, st in states], out['violations'])
 
     def query(p):
         """rows of a sub-term: real value now, the model's interpretation is asked for later"""
         out['queries'].append(sexp.dumps(p.term()))
         out['answers'].append(canon_rows(p.rows))
 
-    if kind == 'eval':
-        score = _top(case['expr'])[-1]
-        metrics = oracle_eval(case, score, train_out, states, out['violations'])
+    if kind in ('eval', 'perf'):
+        if kind == 'perf':
+            metrics = oracle_perf(case, train_out, out['violations'])
+        else:
+            score = _top(case['expr'])[-1]
+            metrics = oracle_eval(case, score, train_out, states, out['violations'])
         for m in metrics[:6]:
             if m.kind == 'apply' and len(m.args) == 2:
                 query(m.args[0])
@@ -404,10 +579,77 @@ def _impl(case: dict) -> dict:
 # the oracle: the property on the recorded provenance (written from the property text, no model involved)
 # --------------------------------------------------------------------------------------------------
 def _decision_of(case, tag):
-    for t, c, d in case['dec']:
-        if t == tag:
-            return c, d
-    raise KeyError(tag)
+    c, d, _ = dec_table(case)[tag]
+    return c, d
+
+
+def instantiations(ast) -> dict:
+    """{splitter tag: how many instances of it the composition trains} - an evaluation / an ensemble expands the
+    scope it is composed over once per fold (and every base once per fold), `left >> right` composes right over left."""
+    acc: dict = {}
+
+    def walk(p, scope, mult):
+        k = p[0]
+        if k == 'seq':
+            if scope:
+                scope(mult)
+            walk(p[2], lambda m: walk(p[1], None, m), mult)
+        elif k == 'stack':
+            acc[p[3]] = acc.get(p[3], 0) + mult
+            if scope:
+                scope(mult * p[2])
+            for b in p[1]:
+                walk(b, None, mult * p[2])
+        elif k == 'score':
+            acc[p[2]] = acc.get(p[2], 0) + mult
+            if scope:
+                scope(mult * max(p[1], 1))
+        elif scope:
+            scope(mult)
+
+    walk(ast, None, 1)
+    return acc
+
+
+def _reachable(roots) -> list:
+    """Every payload node reachable from the roots (arguments, states, and what the states were trained on)."""
+    memo, order, todo = set(), [], []
+    for r in roots:
+        if isinstance(r, P):
+            todo.append(r)
+        elif isinstance(r, dict):  # a splitter's attribute dictionary
+            for fold in r.get('_indices') or ():
+                if isinstance(getattr(fold, 'origin', None), P):
+                    todo.append(fold.origin)
+    while todo:
+        p = todo.pop()
+        if id(p) in memo:
+            continue
+        memo.add(id(p))
+        order.append(p)
+        todo.extend(p.args)
+        if p.state is not None:
+            todo.append(p.state)
+    return order
+
+
+def oracle_sync(case, roots, violations) -> None:
+    """`Features and labels are split by the same fold indices`: of a splitter the composition trains once, every
+    output port selects the same row positions of whatever input it splits (features, labels, in whichever fork)."""
+    once = {t for t, m in instantiations(case['expr']).items() if m == 1}
+    ports: dict = {}
+    for p in _reachable(roots):
+        if p.kind == 'part' and p.tag in once and p.pos is not None:
+            ports.setdefault((p.tag, p.k), {}).setdefault(p.pos, p)
+    for (tag, k), by_pos in sorted(ports.items()):
+        if len(by_pos) > 1:
+            (pa, a), (pb, b) = sorted(by_pos.items())[:2]
+            cols = sorted({r[0][0] for r in a.args[0].rows[:1]} | {r[0][0] for r in b.args[0].rows[:1]})
+            what = 'features and labels' if cols == [1, 2] else 'two inputs'
+            violations.append((f'{what} are split by different fold indices: port {k} ({"test" if k % 2 else "train"} part of fold {k // 2}) of '
+                               f'splitter {tag} selects positions {list(pa)} of one and {list(pb)} of the other',
+                               'sync-features-labels', {'folds': len(ports) // 2}))
+            return
 
 
 def _fold_checks(case, sp, xrows, lrows, i):
@@ -432,7 +674,9 @@ def _splitter_input(states, sp):
     top = [st for tag, st in states if tag == sp and isinstance(st, dict)]
     if len(top) != 1 or not top[0].get('_indices'):
         return None
-    origin = top[0]['_indices'][0].origin
+    origin = getattr(top[0]['_indices'][0], 'origin', None)
+    if not isinstance(origin, P) or len(origin.args) != 2:
+        return None
     return list(origin.args[0].rows), list(origin.args[1].rows)
 
 
@@ -446,6 +690,11 @@ def oracle_eval(case, score, out, states, violations) -> list:
         violations.append(('the evaluation did not train exactly one fold splitter', 'eval-splitter-count', {}))
         return []
     xrows, lrows = inputs
+    if any(k[0] != 1 for k, _ in xrows) or any(k[0] != 2 for k, _ in lrows):
+        violations.append(('the evaluation does not split (features, labels): the fold splitter is trained on records of columns '
+                           f'{sorted({k[0] for k, _ in xrows})} as features and {sorted({k[0] for k, _ in lrows})} as labels',
+                           'eval-roles', {'folds': n}))
+        return []
     if n >= 2:
         if not (out.kind == 'apply' and out.tag == reducer):
             violations.append(('the evaluation value is not the reduction of the per-fold metrics', 'eval-fold-count', {}))
@@ -499,6 +748,11 @@ def oracle_stack(case, final, apply_out, states, violations) -> None:
         violations.append(('the ensemble did not train exactly one fold splitter', 'stack-splitter-count', {}))
         return
     xrows, lrows = inputs
+    if any(k[0] != 1 for k, _ in xrows) or any(k[0] != 2 for k, _ in lrows):
+        violations.append(('the ensemble does not split (features, labels): the fold splitter is trained on records of columns '
+                           f'{sorted({k[0] for k, _ in xrows})} as features and {sorted({k[0] for k, _ in lrows})} as labels',
+                           'stack-roles', {'folds': n}))
+        return
     checks = [_fold_checks(case, sp, xrows, lrows, i) for i in range(n)]
     total = sum(len(c[0]) for c in checks)
     if len(x.rows) != total or len(y.rows) != total:
@@ -531,7 +785,7 @@ def oracle_stack(case, final, apply_out, states, violations) -> None:
     if all(clause(perm) is not None for perm in itertools.permutations(range(n))):
         first = clause(tuple(range(n)))
         violations.append((first[1], first[0], {'folds': n, 'bases': len(bases)}))
-    # apply mode: same input, all fold models of every base
+    # apply mode: same input, all fold models of every base - and of that base - in the column of that base
     m = case['M']
     if [r[0] for r in apply_out.rows] != [(0, r) for r in range(m)]:
         violations.append(('the apply-mode output does not describe the input records', 'stack-apply-input', {}))
@@ -539,27 +793,93 @@ def oracle_stack(case, final, apply_out, states, violations) -> None:
     for tag, st in states:
         if isinstance(st, P):
             trained.setdefault(tag, []).append(sexp.dumps(st.term()))
-    used: dict = {}
-    memo: set = set()
-    todo = [apply_out]
-    while todo:
-        p = todo.pop()
-        if id(p) in memo:
-            continue
-        memo.add(id(p))
-        if p.kind == 'apply' and p.state is not None:
-            used.setdefault(p.tag, set()).add(sexp.dumps(p.state.term()))
-        todo.extend(p.args)  # states are not descended into: only the models the apply path runs through
-    for b in bases:
-        if splitter_tags(b):
-            continue  # a base that is itself an ensemble multiplies its instances; covered by the correspondence
+
+    def models_used(root) -> dict:
+        """{actor tag: [state term of every distinct (node-wise) stateful application on the way]} - states are not
+        descended into: only the models the apply path runs through"""
+        used: dict = {}
+        memo: set = set()
+        todo = [root]
+        while todo:
+            p = todo.pop()
+            if id(p) in memo:
+                continue
+            memo.add(id(p))
+            if p.kind == 'apply' and p.state is not None:
+                used.setdefault(p.tag, []).append(sexp.dumps(p.state.term()))
+            if p.kind in ('input', 'part') and not (p.kind == 'input' and p.tag == 0):
+                used.setdefault('foreign-input', []).append(p.kind)
+            todo.extend(p.args)
+        return used
+
+    used = models_used(apply_out)
+    if 'foreign-input' in used:
+        violations.append(('the apply-mode output is computed from something else than the apply-mode input', 'stack-apply-input', {}))
+        return
+    plain = [(j, b) for j, b in enumerate(bases) if not splitter_tags(b)]
+    # (a base that is itself an ensemble multiplies its instances; covered by the correspondence)
+    for j, b in plain:
         for tag in apply_path_stateful_tags(b):
             want = trained.get(tag, [])
-            got = used.get(tag, set())
+            got = set(used.get(tag, []))
             if len(want) != n or len(set(want)) != n or set(want) != got:
                 violations.append((f'apply mode combines {len(got & set(want))} of the {len(want)} fold models of base actor {tag} '
                                    f'({n} folds)', 'stack-apply-fold-models', {'folds': n}))
                 return
+    # the stacked columns: in train mode column j is made of base j's predictions - in apply mode column j has to combine
+    # the fold models of that very base, each exactly once
+    joint, memo, todo = None, set(), [apply_out]
+    while todo and joint is None:  # the appender application on the apply path (states are not descended into)
+        p = todo.pop()
+        if id(p) in memo:
+            continue
+        memo.add(id(p))
+        if p.kind == 'apply' and p.tag == appender and p.state is None:
+            joint = p
+        todo.extend(p.args)
+    if joint is not None and len(joint.args) == len(bases):
+        for j, b in plain:
+            col = joint.args[j]
+            col_used = models_used(col)
+            for i, other in plain:
+                for tag in apply_path_stateful_tags(other):
+                    got = col_used.get(tag, [])
+                    if i == j and (set(got) != set(trained.get(tag, [])) or len(got) != n):
+                        violations.append((f'apply-mode column {j} combines {len(set(got))} distinct fold models of its base actor {tag} in '
+                                           f'{len(got)} applications ({n} folds)', 'stack-apply-columns', {'folds': n, 'bases': len(bases)}))
+                        return
+                    if i != j and got:
+                        violations.append((f'apply-mode column {j} combines fold models of base {i} (actor {tag}), not of base {j}',
+                                           'stack-apply-columns', {'folds': n, 'bases': len(bases)}))
+                        return
+            if col.kind == 'apply' and col.tag == reducer and len(col.args) != n:
+                violations.append((f'apply-mode column {j} reduces {len(col.args)} predictions for {n} folds', 'stack-apply-fold-models',
+                                   {'folds': n}))
+                return
+
+
+def reducer_tags(ast) -> set:
+    """Tags of the apply-mode reducers of every ensemble in the expression."""
+    k = ast[0]
+    if k == 'seq':
+        return reducer_tags(ast[1]) | reducer_tags(ast[2])
+    if k == 'stack':
+        return {ast[6]}.union(*(reducer_tags(b) for b in ast[1]))
+    return set()
+
+
+def sort_reduced(term, reducers: set):
+    """The term (nested lists) with the arguments of every application of one of `reducers` sorted."""
+    if not isinstance(term, list) or not term:
+        return term
+    if isinstance(term[0], list):  # an argument list
+        return [sort_reduced(t, reducers) for t in term]
+    if term[0] == 'apply' and len(term) == 4:
+        args = [sort_reduced(a, reducers) for a in term[3]]
+        if term[1] in reducers and term[2] == NONE:
+            args = sorted(args, key=sexp.dumps)
+        return ['apply', term[1], sort_reduced(term[2], reducers), args]
+    return [term[0]] + [sort_reduced(t, reducers) if isinstance(t, list) else t for t in term[1:]]
 
 
 def stateful_tags(ast) -> list:
@@ -669,16 +989,18 @@ class Gen:
     def pipe(self, n: int):
         return self.tree([self.leaf() for _ in range(n)])
 
-    def stack(self, nested: bool = False):
+    def stack(self, nested: bool = False, inner: bool = False):
         rng = self.rng
         nb = rng.choice([1, 1, 2, 2, 3])
         bases = []
         for _ in range(nb):
             if nested and rng.random() < 0.5:
-                bases.append(self.tree([self.stack(False)] + ([self.leaf()] if rng.random() < 0.5 else [])))
+                bases.append(self.tree([self.stack(False, inner=True)] + ([self.leaf()] if rng.random() < 0.5 else [])))
             else:
                 bases.append(self.pipe(rng.choice([1, 1, 2])))
-        return ['stack', bases, rng.choice([2, 2, 3, 3, 4, 5]) if not nested else 2, 0, 0, 0, 0]
+        # (an ensemble inside an ensemble multiplies the instances: fold counts kept small there)
+        folds = 2 if nested else rng.choice([2, 2, 3, 3]) if inner else rng.choice([2, 2, 3, 3, 4, 5])
+        return ['stack', bases, folds, 0, 0, 0, 0]
 
     def decision(self, c: int, n: int):
         rng = self.rng
@@ -692,10 +1014,14 @@ class Gen:
         expr = retag(expr, itertools.count(1))
         n = n or rng.randint(3, 8)
         dec = []
+        once = instantiations(expr)
         for tag, nsplits, what in splitter_tags(expr):
             c = nsplits if nsplits >= 2 else rng.choice([2, 2, 3])
-            dec.append([tag, c, ['kfold', rng.randrange(c)] if partition else self.decision(c, n)])
-        return {'kind': kind, 'expr': expr, 'N': n, 'M': rng.randint(1, 3), 'dec': dec, 'flavour': rng.randrange(4)}
+            # a double that never splits twice alike - where the composition trains the splitter exactly once (the call
+            # number of that one `split` is then 0 whatever the execution order)
+            volatile = once.get(tag) == 1 and rng.random() < 0.7
+            dec.append([tag, c, ['kfold', rng.randrange(c)] if partition else self.decision(c, n), volatile])
+        return {'kind': kind, 'expr': expr, 'N': n, 'M': rng.randint(1, 3), 'dec': dec, 'flavour': rng.randrange(8)}
 
     def eval_case(self) -> dict:
         rng = self.rng
@@ -706,6 +1032,19 @@ class Gen:
         pipe = self.tree(items)
         folds = rng.choice([1, 2, 2, 3, 3, 4, 5])
         return self.finish('eval', ['seq', pipe, ['score', folds, 0, 0, 0]])
+
+    def perf_case(self) -> dict:
+        """`pipeline >> PerfTrackScore`: plain pipelines (the earlier generation's states are found by actor)."""
+        rng = self.rng
+        counter = itertools.count(1)
+        items = [self.leaf() for _ in range(rng.choice([1, 1, 2, 2, 3]))]
+        # (a pipeline whose apply path fans out - MapReduce over several mappers - does not compose with PerfTrackScore at
+        # all: the state-carrying copy hanging on the apply input makes the apply tail ambiguous, `TopologyError`; not
+        # this property's subject, see design.d/C12.md)
+        items = [['mapreduce', it[1][:1], it[2]] if it[0] == 'mapreduce' else it for it in items]
+        expr = retag(self.tree(items), counter)
+        return {'kind': 'perf', 'expr': expr, 'N': rng.randint(2, 6), 'N2': rng.randint(1, 6), 'M': rng.randint(1, 3), 'dec': [],
+                'flavour': 0, 'metric': next(counter), 'reducer': next(counter)}
 
     def stack_case(self) -> dict:
         rng = self.rng
@@ -789,14 +1128,16 @@ def ctor_impl(spec) -> list:
         bases = [wrap.Operator.mapper(L['Stateful'], tag=i + 1)() for i in range(nb)]
         e = ensemble.FullStack(*bases, **kwargs)
         return ['ok', e._nsplits]  # pylint: disable=protected-access
-    except (TypeError, ValueError) as err:
-        return ['error', type(err).__name__]
+    except Exception as err:  # pylint: disable=broad-except
+        return ['error', type(err).__name__]  # whatever a constructor raises is its behaviour (the model: TypeError / ValueError)
 
 
 # --------------------------------------------------------------------------------------------------
-# on data: the real PandasCVFolds, sklearn cross-validators, default constructors, pickled actor states
+# on data: the real PandasCVFolds, sklearn cross-validators (reproducible and not), default constructors, pickled
+# actor states handed over by the compiled code's own actions (Train -> state -> SetState.Apply on a fresh instance)
 # --------------------------------------------------------------------------------------------------
 def _sk_cv(spec):
+    """sklearn cross-validator; a seed of None = `random_state=None`: no two calls of `split` answer alike."""
     from sklearn import model_selection
 
     if spec[0] == 'KFold':
@@ -810,39 +1151,85 @@ def _sk_cv(spec):
     raise ValueError(spec)
 
 
+class Recording:
+    """A real cross-validator observed from outside: what every call of `split` answered (forml sees a
+    `payload.CrossValidable`; nothing of forml is patched)."""
+
+    def __init__(self, cv):
+        self.cv = cv
+        self.log: list = []
+
+    def get_n_splits(self, *args, **kwargs):
+        return self.cv.get_n_splits(*args, **kwargs)
+
+    def split(self, features, labels=None, groups=None):
+        out = [([int(p) for p in a], [int(p) for p in b]) for a, b in self.cv.split(features, labels, groups)]
+        self.log.append(out)
+        return out
+
+
+def raised(err, cfg) -> list:
+    """An exception that passed through forml code is the implementation's behaviour: an oracle finding; anything
+    else is a harness defect and propagates."""
+    import traceback
+
+    if not any('/forml/' in f.filename for f in traceback.extract_tb(err.__traceback__)):
+        raise err
+    return [(f'{cfg.get("actor")} ({cfg.get("style", cfg.get("cv"))}) raised {type(err).__name__}: {str(err)[:160]}',
+             f'exception-{type(err).__name__}')]
+
+
+def reseed(cfg) -> None:
+    """`random_state=None` cross-validators draw from numpy's global generator: seeded per case (from the check's own
+    generator), so that a case replays identically while successive `split` calls still differ."""
+    import numpy
+
+    numpy.random.seed(cfg.get('np_seed', 0))
+
+
+def guarded(func, cfg) -> list:
+    """Oracle findings of `func(cfg)`."""
+    try:
+        return list(func(cfg))
+    except Exception as err:  # pylint: disable=broad-except
+        return raised(err, cfg)
+
+
 def pandas_actor(cfg):
-    """PandasCVFolds trained once, applied to features and to labels -> (record ids per port, indices the
-    cross-validator decides, oracle findings)."""
+    """PandasCVFolds as the compiled code runs it: `Functor(builder, Train)` trains a fresh instance and returns its
+    state; the features fork and the labels fork are fresh instances of the same builder receiving that state through
+    `SetState` before they split -> (record ids per port, the indices decided in the train call, oracle findings)."""
     import pandas
+    from forml.flow._code.target import user
     from forml.pipeline import payload
 
+    reseed(cfg)
     ids = cfg['ids']
-    cv = _sk_cv(cfg['cv'])
+    cv = Recording(_sk_cv(cfg['cv']))
     features = pandas.DataFrame({'id': ids, 'x': [i * 2 for i in ids]})
     labels = pandas.Series(ids, name='y')
-    actor = payload.PandasCVFolds(crossvalidator=cv)
-    actor.train(features, labels)
-    real = [[int(i) for i in part['id']] for part in actor.apply(features)]
-    lreal = [[int(i) for i in part] for part in actor.apply(labels)]
-    indices = [[[int(p) for p in a], [int(p) for p in b]] for a, b in cv.split(features, labels)]
-    # oracle: features and labels split by the same indices; ports 2i / 2i+1 = train / test positions of fold i
-    want = [[ids[p] for p in part] for ab in indices for part in ab]
+    builder = payload.PandasCVFolds.builder(crossvalidator=cv)
+    state = user.Functor(builder, user.Train()).execute(features, labels)
+    decided = [[list(a), list(b)] for a, b in cv.log[0]] if cv.log else []
+    real = [[int(i) for i in part['id']] for part in user.Functor(builder, user.Apply()).preset_state().execute(state, features)]
+    lreal = [[int(i) for i in part] for part in user.Functor(builder, user.Apply()).preset_state().execute(state, labels)]
+    # oracle: features and labels split by the same indices - those decided in the one train call; ports 2i / 2i+1 =
+    # train / test positions of fold i
+    want = [[ids[p] for p in part] for ab in decided for part in ab]
     found = []
     if real != lreal:
-        found.append(('features and labels of one trained splitter are split into different records', 'sync-features-labels'))
+        found.append(('the features fork and the labels fork of one trained splitter select different records', 'sync-features-labels'))
     elif real != want:
-        found.append(('fold parts are not the records at the decided train/test positions', 'sync-positions'))
-    return real, indices, found
+        found.append(('fold parts are not the records at the train/test positions decided when the splitter was trained', 'sync-positions'))
+    return real, decided, found
 
 
-def pandas_eval(cfg) -> list:
-    """A memorising model evaluated by the real TrainTestScore over CrossVal / HoldOut built by their default
-    constructors (sklearn cross-validator, PandasCVFolds, pickled states): oracle findings."""
+def _pandas_actors():
+    """Source / label extractor / memorising model over data frames."""
+    if 'pandas' in _CACHE:
+        return _CACHE['pandas']
     import pandas
-    from forml import evaluation, flow
-    from forml.io._input import extract
-    from forml.pipeline import wrap
-    from sklearn import model_selection
+    from forml import flow
 
     class Frame(flow.Actor):
         def __init__(self, ids):
@@ -858,7 +1245,8 @@ def pandas_eval(cfg) -> list:
     class Memo(flow.Actor):
         """Remembers the record ids (features and labels) it was trained on; predictions carry them."""
 
-        def __init__(self):
+        def __init__(self, name: int = 0):
+            self.name = name
             self.seen, self.seen_labels = (), ()
 
         def train(self, features, labels, /):
@@ -866,62 +1254,324 @@ def pandas_eval(cfg) -> list:
 
         def apply(self, features):
             return pandas.DataFrame({'id': features['id'].values, 'seen': [self.seen] * len(features),
-                                     'seen_labels': [self.seen_labels] * len(features)})
+                                     'seen_labels': [self.seen_labels] * len(features), 'model': [self.name] * len(features)})
 
         def get_params(self):
-            return {}
+            return {'name': self.name}
 
-        def set_params(self, **params):
-            pass
+        def set_params(self, name):
+            self.name = name
 
+    _CACHE['pandas'] = (Frame, Label, Memo)
+    return _CACHE['pandas']
+
+
+def pandas_eval(cfg) -> list:
+    """A memorising model evaluated by the real TrainTestScore over CrossVal / HoldOut built by their default
+    constructors (sklearn cross-validator - seeded or with random_state=None -, PandasCVFolds, pickled states, default
+    reducer): oracle findings."""
+    import statistics
+
+    from forml import evaluation, flow
+    from forml.io._input import extract
+    from forml.pipeline import wrap
+    from sklearn import model_selection
+
+    reseed(cfg)
+    Frame, Label, Memo = _pandas_actors()
     ids, style, seed, k = cfg['ids'], cfg['style'], cfg['seed'], cfg['k']
     size = cfg['size'] / 100 if cfg['size'] < 100 else cfg['size'] // 100
+    partition = False  # the cross-validator holds every record out exactly once
+    cv = None
     if style == 'kfold':
-        cv = model_selection.KFold(n_splits=k)
-        method, folds = evaluation.CrossVal(crossvalidator=cv), k
+        cv = Recording(model_selection.KFold(n_splits=k))
+        method, folds, partition = evaluation.CrossVal(crossvalidator=cv), k, True
     elif style == 'kfold-shuffle':
-        cv = model_selection.KFold(n_splits=k, shuffle=True, random_state=seed)
-        method, folds = evaluation.CrossVal(crossvalidator=cv), k
+        cv = Recording(model_selection.KFold(n_splits=k, shuffle=True, random_state=seed))
+        method, folds, partition = evaluation.CrossVal(crossvalidator=cv), k, True
     elif style == 'holdout':
-        cv = model_selection.ShuffleSplit(test_size=size, train_size=None, random_state=seed, n_splits=2)
         method, folds = evaluation.HoldOut(test_size=size, random_state=seed), 1
     else:
-        cv = model_selection.ShuffleSplit(n_splits=3, test_size=0.3, random_state=seed)
+        cv = Recording(model_selection.ShuffleSplit(n_splits=3, test_size=0.3, random_state=seed))
         method, folds = evaluation.HoldOut(crossvalidator=cv), 1
     scored = []
 
     def metric(true, pred):
         scored.append(([int(i) for i in true], [int(i) for i in pred['id']],
                        [tuple(s) for s in pred['seen']], [tuple(s) for s in pred['seen_labels']]))
-        return 0.0
+        return float(sum(int(i) for i in true))
 
     with pg.isolated():
         src = extract.Operator(Frame.builder(ids), Frame.builder(ids), Label.builder())
         comp = flow.Composition(src, wrap.Operator.mapper(Memo)() >> evaluation.TrainTestScore(evaluation.Function(metric), method))
         compiled = pg.compile_segment(comp.train, None)
-        pg.interpret(compiled.symbols)
-    frame = pandas.DataFrame({'id': ids})
-    want = [([ids[p] for p in te], [ids[p] for p in tr]) for tr, te in list(cv.split(frame, frame['id']))[:folds]]
+        value = pg.tail_value(comp.train, compiled, pg.interpret(compiled.symbols))
+    tag = f'(pandas, {style}{", random_state=None" if seed is None and style != "kfold" else ""})'
     if len(scored) != folds:
-        return [(f'{len(scored)} (true, prediction) partitions are scored for {folds} fold(s) (pandas, {style})', 'eval-fold-count')]
+        return [(f'{len(scored)} (true, prediction) partitions are scored for {folds} fold(s) {tag}', 'eval-fold-count')]
+    found = []
+    # the statement itself, whatever the cross-validator decided
+    for true, pred, seen, seen_labels in scored:
+        if true != pred:
+            found.append((f'the true outcomes paired with the predictions of a fold are those of other records {tag}', 'eval-true-outcomes'))
+        elif any(s != sl for s, sl in zip(seen, seen_labels)):
+            found.append((f'a fold model is trained on features and labels of different records: they were split by different '
+                          f'indices {tag}', 'sync-features-labels'))
+        elif any(i in row for i, row in zip(pred, seen)):
+            found.append((f'a scored prediction comes from a model trained on its own record {tag}', 'eval-leak'))
+    if not found and partition and sorted(i for true, *_ in scored for i in true) != sorted(ids):
+        found.append((f'the folds do not score every record exactly once {tag}', 'eval-fold-count'))
+    if not found:
+        want = statistics.mean(float(sum(true)) for true, *_ in scored)
+        if not isinstance(value, (int, float)) or abs(float(value) - want) > 1e-6:
+            found.append((f'the evaluation result {value!r} is not the mean of the per-fold metric values: some fold does not '
+                          f'contribute exactly once {tag}', 'eval-reduction'))
+    if found:
+        return found[:1]
+    # ... and against what the cross-validator decided in the one call made while the splitter was trained
+    decided = None
+    if cv is not None and cv.log:
+        decided = cv.log[0][:folds]
+    elif style == 'holdout' and seed is not None:
+        import pandas
+
+        twin = model_selection.ShuffleSplit(test_size=size, train_size=None, random_state=seed, n_splits=2)
+        frame = pandas.DataFrame({'id': ids})
+        decided = [([int(p) for p in a], [int(p) for p in b]) for a, b in twin.split(frame, frame['id'])][:folds]
+    if decided is None:
+        return []
+    want = [([ids[p] for p in te], [ids[p] for p in tr]) for tr, te in decided]
     got = sorted(scored)
     expect = sorted((te, te, [tuple(tr)] * len(te), [tuple(tr)] * len(te)) for te, tr in want)
     if got == expect:
         return []
-    if any(i in row for _, p, s, sl in got for i, row in zip(p, s)) or any(i in row for _, p, s, sl in got for i, row in zip(p, sl)):
-        return [(f'a scored prediction comes from a model trained on its own record (pandas, {style})', 'eval-leak')]
     if [x[0] for x in got] != [x[0] for x in expect]:
-        return [(f'true outcomes are not the held-out labels of the folds (pandas, {style})', 'eval-true-outcomes')]
+        return [(f'true outcomes are not the held-out labels of the folds {tag}', 'eval-true-outcomes')]
     if [x[1] for x in got] != [x[1] for x in expect]:
-        return [(f'predictions do not describe the held-out records of the folds (pandas, {style})', 'eval-pred-records')]
-    return [(f'fold models are not trained on the training part of their fold (pandas, {style})', 'eval-leak')]
+        return [(f'predictions do not describe the held-out records of the folds {tag}', 'eval-pred-records')]
+    return [(f'fold models are not trained on the training part of their fold {tag}', 'eval-leak')]
+
+
+def pandas_stack(cfg) -> list:
+    """`FullStack(memorising bases) >> final model` on data frames: real PandasCVFolds, sklearn cross-validator (seeded
+    or random_state=None), pickled states; train mode, then apply mode with the train run's states: oracle findings."""
+    import pandas
+    from forml import flow
+    from forml.io._input import extract
+    from forml.pipeline import ensemble, wrap
+
+    reseed(cfg)
+    Frame, Label, Memo = _pandas_actors()
+    ids, live, nb = cfg['ids'], cfg['live'], cfg['bases']
+    cv = Recording(_sk_cv(cfg['cv']))
+    partition = cfg['cv'][0] in ('KFold', 'KFoldShuffle', 'LeaveOneOut')
+    sink: dict = {}
+
+    class Final(flow.Actor):
+        def train(self, features, labels, /):
+            sink['train'] = (features, labels)
+
+        def apply(self, features):
+            sink['apply'] = features
+            return features
+
+        def get_state(self):
+            return b'final'
+
+        def set_state(self, state):
+            pass
+
+    def appender(*columns):
+        return pandas.concat([c.add_prefix(f'b{i}_') for i, c in enumerate(columns)], axis='columns')
+
+    def stacker(*folds):
+        return pandas.concat(folds, axis='index', ignore_index=True)
+
+    def reducer(*folds):
+        return pandas.DataFrame({'id': folds[0]['id'].values,
+                                 'models': [tuple(f['seen'].iloc[r] for f in folds) for r in range(len(folds[0]))],
+                                 'inputs': [tuple(int(f['id'].iloc[r]) for f in folds) for r in range(len(folds[0]))],
+                                 'model': [tuple(int(f['model'].iloc[r]) for f in folds) for r in range(len(folds[0]))]})
+
+    with pg.isolated():
+        src = extract.Operator(Frame.builder(live), Frame.builder(ids), Label.builder())
+        bases = [wrap.Operator.mapper(Memo, name=i)() for i in range(nb)]
+        expr = ensemble.FullStack(*bases, crossvalidator=cv, appender=appender, stacker=stacker, reducer=reducer) \
+            >> wrap.Operator.mapper(Final)()
+        comp = flow.Composition(src, expr)
+        train_nodes = pg.segment_workers(comp.train)
+        ctrain = pg.compile_segment(comp.train, None)
+        tvals = pg.interpret(ctrain.symbols)
+        by_gid = {node.gid: tvals[ctrain.index[node.uid]] for node in train_nodes if node.trained}
+        persistent = list(comp.persistent)
+        capply = pg.compile_segment(comp.apply, pg.Assets({g: by_gid[g] for g in persistent if g in by_gid}, persistent))
+        pg.interpret(capply.symbols)
+    tag = f'(pandas, {cfg["cv"][0]}{", random_state=None" if len(cfg["cv"]) > 2 and cfg["cv"][2] is None else ""})'
+    if 'train' not in sink or 'apply' not in sink:
+        return [(f'the model following the ensemble was not trained / applied {tag}', 'stack-final-untrained')]
+    x, y = sink['train']
+    labels = [int(i) for i in y]
+    if len(x) != len(labels):
+        return [(f'stacked train set has {len(x)} rows and {len(labels)} labels {tag}', 'stack-fold-count')]
+    nfolds = cv.cv.get_n_splits(pandas.DataFrame({'id': ids}))
+    fold_models: list = []
+    for b in range(nb):
+        rec = [int(i) for i in x[f'b{b}_id']]
+        seen = [tuple(s) for s in x[f'b{b}_seen']]
+        seen_labels = [tuple(s) for s in x[f'b{b}_seen_labels']]
+        if any(int(m) != b for m in x[f'b{b}_model']):
+            return [(f'column {b} of the stacked train set is not made of predictions of base {b} {tag}', 'stack-pred-records')]
+        if rec != labels:
+            return [(f'stacked predictions of base {b} are paired with the true outcomes of other records {tag}', 'stack-labels')]
+        if seen != seen_labels:
+            return [(f'a fold model of base {b} is trained on features and labels of different records: they were split by different '
+                     f'indices {tag}', 'sync-features-labels')]
+        if any(i in s for i, s in zip(rec, seen)):
+            return [(f'a stacked prediction of base {b} comes from a model trained on its own record {tag}', 'stack-leak')]
+        fold_models.append(set(seen))
+    if partition and sorted(labels) != sorted(ids):
+        return [(f'the folds do not stack every record exactly once {tag}', 'stack-fold-count')]
+    if cv.log:
+        want = [ids[p] for _, te in cv.log[0] for p in te]
+        if labels != want:
+            return [(f'the stacked blocks are not the held-out parts decided when the splitter was trained {tag}', 'stack-pred-records')]
+    out = sink['apply']
+    for b in range(nb):
+        if [int(i) for i in out[f'b{b}_id']] != list(live) or any(set(t) != {i} for t, i in zip(out[f'b{b}_inputs'], live)):
+            return [(f'apply mode does not run the fold models of base {b} on the same input records {tag}', 'stack-apply-input')]
+        for models, names in zip(out[f'b{b}_models'], out[f'b{b}_model']):
+            if set(names) != {b}:
+                return [(f'apply-mode column {b} combines fold models of another base {tag}', 'stack-apply-columns')]
+            if len(models) != nfolds or len(set(models)) != len(fold_models[b]) or set(models) != fold_models[b]:
+                return [(f'apply mode combines {len(set(models) & fold_models[b])} of the {len(fold_models[b])} fold models of base {b} '
+                         f'in {len(models)} reducer arguments {tag}', 'stack-apply-fold-models')]
+    return []
+
+
+# --------------------------------------------------------------------------------------------------
+# the splitter actor's state / hyper-parameter contract: operation sequences on real CVFoldable actors
+# --------------------------------------------------------------------------------------------------
+def run_ops(cfg) -> tuple:
+    """Replay an operation sequence on real splitter actors -> (per operation output, per operation the indices the
+    cross-validator decided during it).  `cls`: 'raw' / 'pickled' = the symbolic CVFoldable subclasses, 'pandas' =
+    payload.PandasCVFolds.  Actors are built by their builder, states travel as the actor hands them out."""
+    from forml.flow._code.target import user
+    from forml.pipeline import payload
+
+    L = lib()
+    kind = cfg['cls']
+    cls = {'raw': L['Split'], 'pickled': L['SplitReal'], 'pandas': payload.PandasCVFolds}[kind]
+    cvs = [CV(i, c, d, v, plain=kind == 'pandas') for i, (c, d, v) in enumerate(cfg['cvs'])]
+
+    def data(col, rids):
+        if kind == 'pandas':
+            import pandas
+
+            return pandas.DataFrame({'id': list(rids)}) if col == 1 else pandas.Series(list(rids), name='y')
+        return P('input', col, None, (), None, [((col, r), frozenset()) for r in rids])
+
+    def rids_of(part):
+        if kind == 'pandas':
+            return [int(i) for i in (part['id'] if hasattr(part, 'columns') else part)]
+        return [r[0][1] for r in coerce(part).rows]
+
+    actors, states, outs, decided = {}, {}, [], []
+    for op in cfg['ops']:
+        before = [len(cv.log) for cv in cvs]
+        try:
+            what = op[0]
+            if what == 'new':
+                actors[op[1]] = cls.builder(crossvalidator=cvs[op[2]])()
+                out = 'unit'
+            elif what == 'train':
+                actors[op[1]].train(data(1, op[2]), data(2, op[2]))
+                out = 'unit'
+            elif what == 'getstate':
+                states[op[1]] = actors[op[2]].get_state()
+                out = 'unit'
+            elif what == 'setstate':
+                actors[op[1]].set_state(states[op[2]])
+                out = 'unit'
+            elif what == 'preset':
+                user.SetState(user.Apply()).set(actors[op[1]], states[op[2]])
+                out = 'unit'
+            elif what == 'setparams':
+                actors[op[1]].set_params(crossvalidator=cvs[op[2]])
+                out = 'unit'
+            elif what == 'getparams':
+                params = actors[op[1]].get_params()
+                which = [i for i, cv in enumerate(cvs) if cv is params.get('crossvalidator')]
+                out = ['params', which[0] if which and len(params) == 1 else 'foreign']
+            elif what == 'apply':
+                out = ['parts', [rids_of(part) for part in actors[op[1]].apply(data(op[2], op[3]))]]
+            else:
+                raise ValueError(op)
+        except KeyError:
+            out = 'badref'
+        except RuntimeError:
+            out = ['error', 'notTrained']
+        except Exception as err:  # pylint: disable=broad-except
+            out = ['error', type(err).__name__]
+        outs.append(out)
+        decided.append([cv.log[n:] for cv, n in zip(cvs, before)])
+    return outs, decided
+
+
+def ops_oracle(cfg, outs, decided) -> list:
+    """The property on an operation sequence: an actor that holds the state of a train call - because it was trained,
+    or received that state (however often handed on, whatever transfer) - splits whatever it is applied to at the
+    positions the cross-validator decided *in that train call*; re-applying its hyper-parameters does not change that."""
+    lineage, slineage, cvof = {}, {}, {}  # actor -> index of the train operation its fold indices come from
+    found = []
+    applied: dict = {}
+    for i, (op, out) in enumerate(zip(cfg['ops'], outs)):
+        what = op[0]
+        if out == 'badref':
+            continue
+        if what == 'new':
+            lineage[op[1]], cvof[op[1]] = None, op[2]
+        elif what == 'train':
+            made = [idx for log in decided[i] for idx in log]
+            lineage[op[1]] = (i, made[-1]) if len(made) >= 1 else 'unknown'
+        elif what == 'getstate':
+            slineage[op[1]] = lineage.get(op[2])
+        elif what in ('setstate', 'preset'):
+            lineage[op[1]] = slineage.get(op[2])
+        elif what == 'setparams':
+            if cvof.get(op[1]) != op[2]:
+                lineage[op[1]] = 'unknown'  # another cross-validator: the property does not say what becomes of the folds
+            cvof[op[1]] = op[2]
+        elif what == 'apply':
+            lin = lineage.get(op[1])
+            if not isinstance(lin, tuple):
+                continue  # never trained / unknown: no demand
+            rids = op[3]
+            want = [[rids[p] for p in part if p < len(rids)] for ab in lin[1] for part in ab]
+            got = out[1] if isinstance(out, list) and out[0] == 'parts' else out
+            applied.setdefault(lin[0], []).append((op[2], got))
+            if got != want:
+                others = [g for _, g in applied[lin[0]][:-1] if g != got]
+                if isinstance(got, list) and others:
+                    found.append((f'operation {i}: features and labels are split by different fold indices although both actors hold the '
+                                  f'state of the train operation {lin[0]}', 'sync-features-labels'))
+                else:
+                    found.append((f'operation {i}: an actor holding the state of train operation {lin[0]} does not split at the positions '
+                                  f'decided in that train call: {str(got)[:80]} instead of {str(want)[:80]}', 'sync-state-transfer'))
+    return found[:1]
 
 
 # --------------------------------------------------------------------------------------------------
 # the check
 # --------------------------------------------------------------------------------------------------
 def env_of(case) -> list:
-    return [case['N'], case['M'], case['dec']]
+    return [case['N'], case['M'], [[t, c, d, v] for t, (c, d, v) in sorted(dec_table(case).items())]] + ([case['N2']] if 'N2' in case else [])
+
+
+WITNESS_KEYS = ('kind', 'expr', 'N', 'M', 'dec', 'flavour', 'N2', 'metric', 'reducer')
+
+
+def witness_of(case) -> dict:
+    return {k: case[k] for k in WITNESS_KEYS if k in case}
 
 
 class C12(fw.Check):
@@ -932,30 +1582,48 @@ class C12(fw.Check):
             'payload.MapReduce, occasionally a FullStack, stateful and stateless actors, random parenthesisation) >> '
             'TrainTestScore(Function(metric, reducer), CrossVal with 2-5 folds or HoldOut); (b) stacking: [0-2 operators >>] '
             'FullStack(1-3 bases of 1-2 operators, occasionally a nested FullStack; 2-5 folds) >> final model, every '
-            'parenthesisation; each over 3-8 train records / 1-3 apply records, splitter decisions = rotated k-fold partitions '
-            '(65%) or arbitrary index tables (overlapping, repeating, empty parts), both constructor flavours (cross-validator + '
-            'splitter class / builder + nsplits) and both merger flavours (functions / builders); hand-picked corpus first; '
-            'thorough adds every pipeline of <= 2 basic operators x 2-3 folds x 1-2 bases.  A case is distinct by (expression, '
-            'sizes, decisions, flavour); non-trivial when a stateful actor is trained inside a fold.  Real composition compiled '
-            'and interpreted (train segment; for stacking also the apply segment with the train run\'s states); compared with '
-            'the Lean model on the train/apply provenance terms and on the provenance values (rows: record, dependency set) of '
-            'every scored (true, prediction) pair resp. of the stacked train set, stacked labels and apply output; oracle on '
-            'the recorded provenance: folds scored / stacked exactly once, held-out records and labels, dependencies within the '
-            'fold\'s training part, apply mode runs through all fold models of each base.  (c) constructor argument checks of '
-            'CrossVal / HoldOut / FullStack, all combinations; (d) PandasCVFolds and CVFoldable actor level (sync on data).')
+            'parenthesisation; (c) performance tracking: pipeline of 1-3 operators >> PerfTrackScore on tracked data with the states '
+            'of an earlier generation; each over 3-8 train records / 1-3 apply records, splitter decisions = rotated k-fold partitions '
+            '(65%) or arbitrary index tables (overlapping, repeating, empty parts); the cross-validator double of every splitter the '
+            'composition trains exactly once is, in 70% of the cases, one whose split() is NOT reproducible (every call decides '
+            'differently: counter-based); 8 flavours: cross-validator + splitter class / builder + nsplits, mergers as functions / '
+            'builders, splitter state handed over as a dict / pickled through the inherited Actor.get_state/set_state (either way '
+            'through the compiled SetState action incl. re-application of the hyper-parameters); hand-picked corpus first; thorough '
+            'adds every pipeline of <= 2 basic operators x 2-3 folds x 1-2 bases.  A case is distinct by (expression, sizes, '
+            'decisions, flavour); non-trivial when a stateful actor is trained inside a fold.  Real composition compiled and '
+            'interpreted (train segment; for stacking also the apply segment with the train run\'s states); compared with the '
+            'Lean model on the train/apply provenance terms (up to the order of the apply-mode reducers\' arguments) and on the '
+            'provenance values (rows: record, dependency set) of every scored (true, prediction) pair resp. of the stacked train '
+            'set, stacked labels and apply output; oracle on the recorded provenance: features/labels roles, every port of a '
+            'once-trained splitter selects the same positions of whatever it splits, folds scored / stacked exactly once, held-out '
+            'records and labels, dependencies within the fold\'s training part, apply mode: same input, every column combines all '
+            'fold models of its own base and of no other.  (d) constructor argument checks of CrossVal / HoldOut / FullStack, all '
+            'combinations; (e) splitter actor contract: random operation sequences (new / train / get_state / set_state / '
+            'SetState.set / set_params / get_params / apply; the compiled flow\'s train -> state -> features fork + labels fork '
+            'first) on the real CVFoldable subclasses and on PandasCVFolds with counter-based cross-validator doubles vs the Lean '
+            'actor machine + lineage oracle; (f) PandasCVFolds through Functor(Train) / Functor(Apply).preset_state with sklearn '
+            'KFold / ShuffleSplit / LeaveOneOut, seeded and with random_state=None; (g) real evaluations (CrossVal, HoldOut incl. the '
+            'default HoldOut(test_size=..) with random_state=None, default mean reducer) and real FullStack train + apply runs on '
+            'pandas data with memorising models.')
     TRUSTED = [
         'symbolic payloads: the flow layer does not inspect payloads, so actors are uninterpreted symbols over provenance '
         'terms and the recorded rows (parametricity, DESIGN section 3)',
         'the harness\'s symbolic actors implement the row semantics the model interprets terms with (hzip / concat / select): '
         'tied by comparing the recorded rows with the model\'s `rows` of the same terms on every case',
-        'reference interpreter of compiled symbol tables (props/pipegen.interpret); the apply run loads, by gid, the states the '
-        'train run of the same composition produced (persistence is C04)',
+        'reference interpreter of compiled symbol tables (props/pipegen.interpret), one process: all forks of a splitter see the '
+        'same cross-validator object; the apply run loads, by gid, the states the train run of the same composition produced '
+        '(persistence is C04); performance tracking: the earlier generation\'s states are handed over by actor',
+        'cross-validator doubles / the recording proxy around sklearn cross-validators observe split() calls from outside',
     ]
     ASSUMPTIONS = [
         'pipelines are row-preserving on the apply path (true of the symbolic actor library: mappers and reducers are row-aligned)',
         'scopes: a pipeline is modelled by what an expanded trunk computes from its three inputs (C03 establishes that for the '
         'operator library; here it is re-checked on every case by comparing the complete provenance terms)',
         'cross-validators return positions within the data (out-of-range positions are not generated)',
+        'non-reproducible cross-validator doubles are attached only to splitters the composition trains exactly once (the call '
+        'number of that one split() is then independent of the execution order); splitters instantiated per fold get '
+        'reproducible doubles',
+        'the order in which an ensemble\'s apply-mode reducer receives the fold models is not part of the property',
     ]
 
     # ---- cases ---------------------------------------------------------------------------------
@@ -965,11 +1633,13 @@ class C12(fw.Check):
         for kind, expr, n in CORPUS:
             case = gen.finish(kind, expr, n, partition=True)
             out.append(case)
-            out.append(dict(gen.finish(kind, expr, n), flavour=3 - case['flavour']))
-        for _ in range(self.n(300, 3000)):
+            out.append(dict(gen.finish(kind, expr, n), flavour=7 - case['flavour']))
+        for _ in range(self.n(260, 3000)):
             out.append(gen.eval_case())
-        for _ in range(self.n(300, 3000)):
+        for _ in range(self.n(260, 3000)):
             out.append(gen.stack_case())
+        for _ in range(self.n(60, 600)):
+            out.append(gen.perf_case())
         if not self.quick:
             basic = pg.wrap_leaves(['mapper', 'label', 'apply', 'train']) + [['mapreduce', [[0, True], [0, False]], 0]]
             for nl in (1, 2):
@@ -993,8 +1663,9 @@ class C12(fw.Check):
         lines, spans = [], []
         for case, real in zip(cases, reals):
             start = len(lines)
-            if isinstance(real, dict) and not real.get('oversize') and 'harness_error' not in real:
-                lines.append(sexp.dumps(['denote', case['expr']]))
+            if isinstance(real, dict) and not real.get('oversize') and not real.get('unreadable') and 'harness_error' not in real:
+                lines.append(sexp.dumps(['perftrack', case['expr'], case['metric'], case['reducer']] if case['kind'] == 'perf'
+                                        else ['denote', case['expr']]))
                 env = sexp.dumps(env_of(case))
                 lines.extend(f'(rows {env} {q})' for q in real['queries'])
             spans.append((start, len(lines)))
@@ -1003,7 +1674,7 @@ class C12(fw.Check):
         oversize = 0
         for case, real, (a, b) in zip(cases, reals, spans):
             ok = True
-            witness = {k: case[k] for k in ('kind', 'expr', 'N', 'M', 'dec', 'flavour')}
+            witness = witness_of(case)
             if isinstance(real, tuple) and real and real[0] == 'exception':
                 self.violate(f'composing / running {shape(case["expr"])} raised {real[1]}: {real[2]}', witness, f'exception-{real[1]}')
                 verdicts.append(False)
@@ -1017,19 +1688,34 @@ class C12(fw.Check):
             if account:
                 sts = bool(stateful_tags(case['expr']))
                 tbl = any(d[2][0] == 'table' for d in case['dec'])
+                vol = any(len(d) > 3 and d[3] for d in case['dec'])
                 folds = ','.join(str(t[1]) for t in splitter_tags(case['expr']))
                 self.case(sexp.dumps([case['expr'], case['N'], case['M'], case['dec'], case['flavour']]),
-                          f'{case["kind"]} leaves={min(leaves(case["expr"]), 7)} folds={folds} {"table" if tbl else "kfold"}',
+                          f'{case["kind"]} leaves={min(leaves(case["expr"]), 7)} folds={folds} {"table" if tbl else "kfold"}'
+                          f'{" volatile" if vol else ""} {"pickled" if case["flavour"] & 4 else "dict"}-state',
                           nontrivial=sts, sample={'expr': shape(case['expr']), 'N': case['N'], 'dec': case['dec'][:1]})
             for what, sig, detail in real['violations']:
                 self.violate(f'{what} [{shape(case["expr"])}]', witness, sig, detail)
                 ok = False
+            if real.get('unreadable'):
+                verdicts.append(False)
+                continue
             m = sexp.loads(answers[a])
             if not isinstance(m, list) or m[0] != 'ok':
                 self.diverge('model rejects the expression', witness, 'ok', m)
                 verdicts.append(False)
                 continue
             mtrain, mapply = sexp.dumps(m[2]), sexp.dumps(m[1])
+            if 'train_c' in real and (real['train'] != mtrain or (real['apply'] is not None and real['apply'] != mapply)):
+                # the order in which an ensemble's reducer receives the fold models is not part of the property
+                # ("combines all fold models"): compared up to the order of the reducers' arguments (train mode too:
+                # an ensemble that is a base / evaluated contributes its apply path to the enclosing train mode)
+                reducers = reducer_tags(case['expr'])
+                mtrain = sexp.dumps(sort_reduced(sexp.num(m[2]), reducers))
+                real['train'] = real['train_c']
+                if real['apply'] is not None:
+                    mapply = sexp.dumps(sort_reduced(sexp.num(m[1]), reducers))
+                    real['apply'] = real['apply_c']
             if real['train'] != mtrain:
                 self.diverge('train-mode provenance term (what is scored / stacked)', witness, real['train'][:700], mtrain[:700])
                 ok = False
@@ -1072,17 +1758,28 @@ class C12(fw.Check):
                     self.violate(f'{spec[0]} constructed with a degenerate fold count {real[1:]}', {'ctor': list(spec)}, 'ctor-fold-count')
 
     def correspondence(self):
+        import time
+
         pg.quiet()
-        self._evaluate(self._cases())
-        self._constructors()
-        self._actor_level()
-        self._pandas_evaluation()
+        spent = {}
+
+        def timed(name, func, *args):
+            t0 = time.time()
+            func(*args)
+            spent[name] = round(time.time() - t0, 1)
+
+        timed('pipelines', lambda: self._evaluate(self._cases()))
+        timed('constructors', self._constructors)
+        timed('actor', self._actor_level)
+        timed('contract', self._actor_contract)
+        timed('pandas', self._pandas_evaluation)
         if not self.quick:
             self._planted()
         bad = sexp.loads(self.model(['(denote (wrap none))', '(rows (1 1 ()) (part 1))'])[0])
         if bad != 'bad-op':
             self.diverge('driver must reject what it cannot parse', '(denote (wrap none))', None, bad)
-        self._minimise()
+        timed('minimise', self._minimise)
+        self.notes.append(f'wall seconds per stream: {spent}')
 
     # ---- actor level: the real CVFoldable / PandasCVFolds on data -----------------------------------
     def _actor_level(self):
@@ -1102,10 +1799,18 @@ class C12(fw.Check):
             n = rng.randint(4, 12)
             k = rng.choice([2, 2, 3, 4])
             k = min(k, n // 2) if n // 2 >= 2 else 2
-            cv = rng.choice([['KFold', k], ['KFoldShuffle', k, rng.randrange(1000)], ['ShuffleSplit', k, rng.randrange(1000)],
+            seed = rng.choice([None, None, rng.randrange(1000)])  # None: random_state=None, no two splits alike
+            cv = rng.choice([['KFold', k], ['KFoldShuffle', k, seed], ['ShuffleSplit', k, seed],
                              ['LeaveOneOut'] if n <= 6 else ['KFold', 2]])
-            cfg = {'actor': 'pandas', 'ids': rng.sample(range(100, 200), n), 'cv': cv}
-            real, indices, found = pandas_actor(cfg)
+            cfg = {'actor': 'pandas', 'ids': rng.sample(range(100, 200), n), 'cv': cv, 'np_seed': rng.randrange(2 ** 31)}
+            try:
+                real, indices, found = pandas_actor(cfg)
+            except Exception as err:  # pylint: disable=broad-except
+                found = raised(err, cfg)
+                self.case(('pandas', tuple(cfg['ids']), str(cfg['cv'])), f'PandasCVFolds {cfg["cv"][0]}', nontrivial=True)
+                for what, sig in found:
+                    self.violate(what, cfg, sig)
+                continue
             lines.append(sexp.dumps(['cvfold', indices, cfg['ids']]))
             checks.append((cfg, ['ok', real], (indices, found)))
         answers = self.model(lines)
@@ -1117,22 +1822,127 @@ class C12(fw.Check):
                     self.diverge('CVFoldable.apply of a splitter that was never trained', cfg, real, m)
                 continue
             indices, found = extra
-            self.case(('pandas', tuple(cfg['ids']), str(cfg['cv'])), f'PandasCVFolds {cfg["cv"][0]} folds={len(indices)}', nontrivial=True)
+            volatile = len(cfg['cv']) > 2 and cfg['cv'][2] is None
+            self.case(('pandas', tuple(cfg['ids']), str(cfg['cv'])),
+                      f'PandasCVFolds {cfg["cv"][0]}{" random_state=None" if volatile else ""} folds={len(indices)}', nontrivial=True)
             if m != real:
-                self.diverge('PandasCVFolds parts (record ids per port)', cfg, real, m)
+                self.diverge('PandasCVFolds parts (record ids per port) of the forks vs the indices decided in train', cfg, real, m)
             for what, sig in found:
                 self.violate(what, cfg, sig)
+
+    # ---- the splitter's state / params contract: operation sequences vs the Lean actor machine ------------
+    def _ops_case(self) -> dict:
+        rng = self.rng
+        n = rng.randint(3, 7)
+        ids = rng.sample(range(10, 60), n)
+        ncv = rng.choice([1, 1, 2])
+        gen = Gen(rng)
+        cvs = []
+        for _ in range(ncv):
+            c = rng.choice([2, 2, 3])
+            cvs.append([c, gen.decision(c, n), rng.random() < 0.75])
+        cls = rng.choice(['raw', 'pickled', 'pickled', 'pandas'])
+        t = 0
+        ops = [['new', t, 0], ['train', t, ids]]
+        actors, states = [t], []
+        if rng.random() < 0.8:
+            # what the compiled flow does: the trained worker's state goes to a features fork and a labels fork
+            ops.append(['getstate', 0, t])
+            states.append(0)
+            for fork, col in ((1, 1), (2, 2)):
+                ops.append(['new', fork, rng.randrange(ncv) if rng.random() < 0.3 else 0])
+                ops.append(['preset', fork, 0])
+                actors.append(fork)
+            ops += [['apply', 1, 1, ids], ['apply', 2, 2, ids]]
+        for _ in range(rng.randint(0, 8)):
+            r = rng.random()
+            a = rng.choice(actors)
+            if r < 0.12:
+                new = max(actors) + 1
+                ops.append(['new', new, rng.randrange(ncv)])
+                actors.append(new)
+            elif r < 0.22:
+                ops.append(['train', a, ids])
+            elif r < 0.37:
+                st = len(states)
+                ops.append(['getstate', st, a])
+                states.append(st)
+            elif r < 0.57 and states:
+                ops.append([rng.choice(['preset', 'preset', 'setstate']), a, rng.choice(states)])
+            elif r < 0.67:
+                ops.append(['setparams', a, rng.randrange(ncv)])
+            elif r < 0.72:
+                ops.append(['getparams', a])
+            else:
+                ops.append(['apply', a, rng.choice([1, 2]), ids])
+        return {'actor': 'ops', 'cls': cls, 'cvs': cvs, 'ops': ops}
+
+    def _ops_judge(self, cfg) -> tuple:
+        """(outputs, oracle findings) of one sequence on the real actors."""
+        outs, decided = run_ops(cfg)
+        return outs, ops_oracle(cfg, outs, decided)
+
+    def _ops_shrink(self, cfg, sig) -> dict:
+        cur = cfg
+        progress = True
+        while progress:
+            progress = False
+            for i in range(len(cur['ops']) - 1, 0, -1):
+                cand = dict(cur, ops=cur['ops'][:i] + cur['ops'][i + 1:])
+                outs, found = self._ops_judge(cand)
+                if 'badref' not in outs and any(s == sig for _, s in found):
+                    cur, progress = cand, True
+                    break
+        return cur
+
+    def _actor_contract(self):
+        cases = [self._ops_case() for _ in range(self.n(150, 1500))]
+        lines = [sexp.dumps(['actor', 'raw' if c['cls'] == 'raw' else 'pickled', c['cvs'], c['ops']]) for c in cases]
+        answers = self.model(lines)
+        reported = set()
+        for cfg, ans in zip(cases, answers):
+            outs, found = self._ops_judge(cfg)
+            vol = any(v for _, _, v in cfg['cvs'])
+            self.case(('ops', sexp.dumps([cfg['cls'], cfg['cvs'], cfg['ops']])),
+                      f'splitter actor ops cls={cfg["cls"]} {"volatile" if vol else "reproducible"} cv', nontrivial=True,
+                      sample={'cls': cfg['cls'], 'ops': cfg['ops'][:6]})
+            m = sexp.num(sexp.loads(ans))
+            if not (isinstance(m, list) and m and m[0] == 'ok'):
+                self.diverge('model rejects the operation sequence', cfg, outs, m)
+                continue
+            if m[1] != outs:
+                k = next((i for i, (x, y) in enumerate(zip(outs, m[1])) if x != y), None)
+                self.diverge(f'splitter actor: outcome of operation {k} ({cfg["ops"][k] if k is not None else "?"})', cfg, outs, m[1])
+            for what, sig in found:
+                if sig not in reported:
+                    reported.add(sig)
+                    small = self._ops_shrink(cfg, sig)
+                    what2 = next((w for w, s2 in self._ops_judge(small)[1] if s2 == sig), what)
+                    self.violate(f'{what2} [{small["cls"]} splitter, {len(small["ops"])} operations]', small, sig)
 
     # ---- the real thing on data: default constructors, sklearn splitters, PandasCVFolds, pickled states ---------
     def _pandas_evaluation(self):
         rng = self.rng
-        for _ in range(self.n(12, 80)):
+        for _ in range(self.n(16, 100)):
             style = rng.choice(['kfold', 'kfold-shuffle', 'holdout', 'holdout-cv'])
             cfg = {'actor': 'pandas-eval', 'ids': rng.sample(range(1000, 2000), rng.randint(6, 14)), 'style': style,
-                   'seed': rng.randrange(10000), 'k': rng.choice([2, 3] if style == 'kfold' else [2, 3, 4]),
-                   'size': rng.choice([25, 40, 200])}
-            self.case(('pandas-eval', tuple(cfg['ids']), style, cfg['seed'], cfg['k'], cfg['size']), f'pandas evaluation {style}', nontrivial=True)
-            for what, sig in pandas_eval(cfg):
+                   'seed': rng.choice([None, None, rng.randrange(10000)]), 'k': rng.choice([2, 3] if style == 'kfold' else [2, 3, 4]),
+                   'size': rng.choice([25, 40, 200]), 'np_seed': rng.randrange(2 ** 31)}
+            self.case(('pandas-eval', tuple(cfg['ids']), style, cfg['seed'], cfg['k'], cfg['size']),
+                      f'pandas evaluation {style}{" random_state=None" if cfg["seed"] is None and style != "kfold" else ""}', nontrivial=True)
+            for what, sig in guarded(pandas_eval, cfg):
+                self.violate(what, cfg, sig)
+        for _ in range(self.n(10, 60)):
+            n = rng.randint(6, 12)
+            k = rng.choice([2, 3, 3, 4])
+            seed = rng.choice([None, None, rng.randrange(1000)])
+            cfg = {'actor': 'pandas-stack', 'ids': rng.sample(range(1000, 2000), n), 'live': rng.sample(range(3000, 4000), rng.randint(1, 3)),
+                   'bases': rng.choice([1, 2, 2, 3]), 'cv': rng.choice([['KFold', k], ['KFoldShuffle', k, seed], ['ShuffleSplit', k, seed]]),
+                   'np_seed': rng.randrange(2 ** 31)}
+            volatile = len(cfg['cv']) > 2 and cfg['cv'][2] is None
+            self.case(('pandas-stack', tuple(cfg['ids']), tuple(cfg['live']), cfg['bases'], str(cfg['cv'])),
+                      f'pandas stacking {cfg["cv"][0]}{" random_state=None" if volatile else ""} bases={cfg["bases"]}', nontrivial=True)
+            for what, sig in guarded(pandas_stack, cfg):
                 self.violate(what, cfg, sig)
 
     def _planted(self):
@@ -1140,7 +1950,13 @@ class C12(fw.Check):
         gen = Gen(self.rng)
         case = gen.finish('eval', ['seq', ['wrap', NONE, [1, True], [1, True]], ['score', 2, 0, 0, 0]], 5, partition=True)
         with pg.isolated():
-            real = impl(case)
+            try:
+                real = impl(case)
+            except Exception:  # pylint: disable=broad-except
+                real = {}
+        if 'train' not in real:  # the code under test does not get that far: reported by the correspondence proper
+            self.notes.append('planted-divergence self-test skipped: the reference case does not run')
+            return
         wrong = ['seq', case['expr'][1], ['score', 3] + case['expr'][2][2:]]
         m = sexp.loads(self.model([sexp.dumps(['denote', wrong])])[0])
         if sexp.dumps(m[2]) == real['train']:
@@ -1194,21 +2010,27 @@ class C12(fw.Check):
         for expr in self._sub_exprs(case['expr']):
             tags = {t: (n, w) for t, n, w in splitter_tags(expr)}
             dec = []
-            for t, c, d in case['dec']:
+            once = instantiations(expr)
+            for t, (c, d, v) in dec_table(case).items():
                 if t in tags:
                     c2 = tags[t][0] if tags[t][0] >= 2 else c
                     d2 = d if d[0] == 'kfold' else ['table', d[1][:c2]]
                     if d2[0] == 'kfold':
                         d2 = ['kfold', d2[1] % c2]
-                    dec.append([t, c2, d2])
+                    dec.append([t, c2, d2, v and once.get(t) == 1])
             yield dict(case, expr=expr, dec=dec)
         if case['N'] > 3:
             yield dict(case, N=case['N'] - 1)
+        if case.get('N2', 0) > 2:
+            yield dict(case, N2=case['N2'] - 1)
         if case['M'] > 1:
             yield dict(case, M=1)
-        for i, (t, c, d) in enumerate(case['dec']):
+        for i, spec in enumerate(case['dec']):
+            t, c, d = spec[:3]
             if d[0] == 'table':
-                yield dict(case, dec=case['dec'][:i] + [[t, c, ['kfold', 0]]] + case['dec'][i + 1:])
+                yield dict(case, dec=case['dec'][:i] + [[t, c, ['kfold', 0]] + spec[3:]] + case['dec'][i + 1:])
+            if len(spec) > 3 and spec[3]:
+                yield dict(case, dec=case['dec'][:i] + [[t, c, d, False]] + case['dec'][i + 1:])
         if case.get('flavour'):
             yield dict(case, flavour=0)
 
@@ -1246,8 +2068,7 @@ class C12(fw.Check):
                 small = self._shrink(v.witness, v.signature)
                 sigs = self._signatures(small)
                 what, detail = sigs.get(v.signature, (v.what, v.detail))
-                shrunk.append(fw.Violation(f'{what} [{shape(small["expr"])}]', {k: small[k] for k in ('kind', 'expr', 'N', 'M', 'dec', 'flavour')},
-                                           v.signature, detail))
+                shrunk.append(fw.Violation(f'{what} [{shape(small["expr"])}]', witness_of(small), v.signature, detail))
             else:
                 shrunk.append(v)
         self.violations[:] = shrunk
@@ -1259,7 +2080,8 @@ class C12(fw.Check):
         tried, found = 0, {}
         for case in seeds:
             cands = [case] + list(itertools.islice(self._variants(case), 25))
-            cands += [dict(case, dec=[[t, c, ['kfold', 0]] for t, c, _ in case['dec']], flavour=f) for f in range(4)]
+            once = instantiations(case['expr'])
+            cands += [dict(case, dec=[[d[0], d[1], ['kfold', 0], once.get(d[0]) == 1] for d in case['dec']], flavour=f) for f in range(8)]
             for cand in cands:
                 tried += 1
                 for sig, (what, detail) in self._signatures(cand).items():
@@ -1283,7 +2105,7 @@ class C12(fw.Check):
         for sig, (cand, what, detail) in found.items():
             small = self._shrink(cand, sig)
             what2, detail2 = self._signatures(small).get(sig, (what, detail))
-            self.violate(f'{what2} [{shape(small["expr"])}]', {k: small[k] for k in ('kind', 'expr', 'N', 'M', 'dec', 'flavour')}, sig, detail2)
+            self.violate(f'{what2} [{shape(small["expr"])}]', witness_of(small), sig, detail2)
         self.notes.append(f'failing-input search ({reason}): {tried} cases around {len(seeds)} diverging ones')
 
     def replay_finding(self, entry):
@@ -1292,11 +2114,19 @@ class C12(fw.Check):
             return None
         pg.quiet()
         if w.get('actor') == 'pandas':
-            for what, sig in pandas_actor(w)[2]:
+            for what, sig in guarded(lambda c: pandas_actor(c)[2], w):
                 return fw.Violation(what, w, sig)
             return None
         if w.get('actor') == 'pandas-eval':
-            for what, sig in pandas_eval(w):
+            for what, sig in guarded(pandas_eval, w):
+                return fw.Violation(what, w, sig)
+            return None
+        if w.get('actor') == 'pandas-stack':
+            for what, sig in guarded(pandas_stack, w):
+                return fw.Violation(what, w, sig)
+            return None
+        if w.get('actor') == 'ops':
+            for what, sig in self._ops_judge(w)[1]:
                 return fw.Violation(what, w, sig)
             return None
         if w.get('ctor'):
